@@ -7,6 +7,7 @@ import (
 	"sort"
 	"strings"
 	"sync"
+	"sync/atomic"
 	"testing"
 	"time"
 
@@ -106,13 +107,13 @@ func genHist(t *rapid.T) HistCase {
 		N:        rapid.IntRange(1, 4).Draw(t, "n")}
 	k := rapid.IntRange(3, 25).Draw(t, "nops")
 	for i := 0; i < k; i++ {
-		kind := rapid.SampledFrom([]string{"set", "set", "down", "up", "request", "request", "request", "healthcheck"}).Draw(t, "kind")
+		kind := rapid.SampledFrom([]string{"set", "set", "down", "up", "request", "request", "request", "healthcheck", "break", "mend"}).Draw(t, "kind")
 		op := Op{Kind: kind}
 		switch kind {
 		case "set":
 			op.EP = rapid.IntRange(0, c.N-1).Draw(t, "ep")
 			op.Status = string(rapid.SampledFrom(gen.Statuses).Draw(t, "status"))
-		case "down", "up":
+		case "down", "up", "break", "mend":
 			op.EP = rapid.IntRange(0, c.N-1).Draw(t, "ep")
 		}
 		c.Ops = append(c.Ops, op)
@@ -159,6 +160,7 @@ func runHist(c HistCase) []ev.Violation {
 	}()
 	status := make([]domain.EndpointStatus, c.N) // reference model
 	up := make([]bool, c.N)
+	broken := make([]bool, c.N) // the backend resets the connection after the head and part of the body
 	failedChecks := make([]int, c.N)
 	for i := range status {
 		status[i], up[i] = domain.StatusHealthy, true
@@ -216,6 +218,16 @@ func runHist(c HistCase) []ev.Violation {
 				up[op.EP] = true
 			}
 			trace = append(trace, fmt.Sprintf("up(%d)", op.EP))
+		case "break":
+			okBody := 4096
+			r.Raw[op.EP].SetScript(backend.Script{Steps: []backend.Step{backend.HeadStep(200, [][2]string{{"Content-Type", "application/json"}}, okBody, "cl", r.Raw[op.EP].ID),
+				{Op: "body", N: 100}, {Op: "pause", Ms: 5}, {Op: "rst"}}})
+			broken[op.EP] = true
+			trace = append(trace, fmt.Sprintf("break(%d)", op.EP))
+		case "mend":
+			r.Raw[op.EP].SetScript(backend.OK(200, [][2]string{{"Content-Type", "application/json"}}, 32, "cl", r.Raw[op.EP].ID))
+			broken[op.EP] = false
+			trace = append(trace, fmt.Sprintf("mend(%d)", op.EP))
 		case "request":
 			before := make([]int, c.N)
 			for i := 0; i < c.N; i++ {
@@ -260,11 +272,16 @@ func runHist(c HistCase) []ev.Violation {
 					}
 					continue
 				}
-				if gen.IsRoutable(string(status[i])) && !up[i] && !gen.IsRoutable(string(now)) {
+				if gen.IsRoutable(string(status[i])) && (!up[i] || broken[i]) && !gen.IsRoutable(string(now)) {
 					hadTransition = true
 					continue // proxy-detected failure
 				}
 				vs = append(vs, ev.Violation{Sig: "status-changed-by-request/" + string(status[i]) + "-to-" + string(now), Detail: fmt.Sprintf("engine=%s balancer=%s: endpoint %d (up=%v) went from %q to %q during a request; history %v", c.Engine, c.Balancer, i, up[i], status[i], now, trace)})
+			}
+			for _, i := range served {
+				if broken[i] && up[i] && gen.IsRoutable(string(st[names[i]])) {
+					vs = append(vs, ev.Violation{Sig: "connection-failure-mid-response-endpoint-still-routable", Detail: fmt.Sprintf("engine=%s balancer=%s: endpoint %d reset the connection after the head and 100 body bytes of its response (client status %d), but it is still %q; history %v", c.Engine, c.Balancer, i, resp.Status, st[names[i]], trace)})
+				}
 			}
 			sync()
 		case "healthcheck":
@@ -478,6 +495,106 @@ func runConc(c ConcCase) []ev.Violation {
 	if servedN > 0 {
 		rec.NT(fmt.Sprintf("conc|%+v", c))
 	}
+	// aftermath: the writers have stopped, every endpoint's status is its last write. Requests
+	// sent now have no concurrency to hide behind: only endpoints whose final status is routable
+	// may serve them (a view of the endpoint set left behind by the race must not outlive it).
+	final := make([]domain.EndpointStatus, c.N)
+	for i := 0; i < c.N; i++ {
+		final[i] = writes[i][len(writes[i])-1].status
+	}
+	aftermath := func(phase string) {
+		anyHealthy := false
+		for i := 0; i < c.N; i++ {
+			if final[i] == domain.StatusHealthy { // (busy / warming endpoints may be served, healthy ones must be)
+				anyHealthy = true
+			}
+		}
+		for k := 0; k < c.N+1 && len(vs) == 0; k++ {
+			resp, err := doRequest(r, fmt.Sprintf("after-%s-%d", phase, k))
+			if err != nil {
+				return
+			}
+			served := -1
+			if id := resp.Get("X-Backend-Id"); id != "" {
+				for i := 0; i < c.N; i++ {
+					if r.Raw[i].ID == id {
+						served = i
+					}
+				}
+			}
+			switch {
+			case served >= 0 && !gen.IsRoutable(string(final[served])):
+				vs = append(vs, ev.Violation{Sig: "concurrent/stale-routing-after-writers-stopped", Detail: fmt.Sprintf("engine=%s balancer=%s (%s): after all status writers had finished, endpoint %d (final status %q, final statuses %v) served a request", c.Engine, c.Balancer, phase, served, final[served], final)})
+			case served < 0 && anyHealthy && resp.Status >= 500:
+				vs = append(vs, ev.Violation{Sig: "concurrent/healthy-endpoint-ignored-after-writers-stopped", Detail: fmt.Sprintf("engine=%s balancer=%s (%s): after all status writers had finished (final statuses %v) a request was answered %d although a healthy, reachable endpoint exists", c.Engine, c.Balancer, phase, final, resp.Status)})
+			}
+		}
+	}
+	if len(vs) == 0 {
+		aftermath("main")
+		rec.Class("concurrent/aftermath-judged")
+	}
+	// burst rounds: all endpoints change status at the same instant (as a health-check round does)
+	// while requests keep arriving; then traffic pauses and the aftermath is judged again
+	x := uint32(c.Seed*7919 + 17)
+	rounds := 60
+	if rec.Thorough() {
+		rounds = 400
+	}
+	for round := 0; round < rounds && len(vs) == 0; round++ {
+		var halt atomic.Bool
+		var sw sync.WaitGroup
+		for k := 0; k < 4; k++ {
+			sw.Add(1)
+			go func(k int) {
+				defer sw.Done()
+				for !halt.Load() {
+					_, _ = doRequest(r, fmt.Sprintf("burst-%d-%d", round, k))
+				}
+			}(k)
+		}
+		// the arrival rate of a busy proxy: the question every request starts with ("which endpoints
+		// are healthy?") asked in a tight loop through the repository the application uses
+		for k := 0; k < 3; k++ {
+			sw.Add(1)
+			go func() {
+				defer sw.Done()
+				for !halt.Load() {
+					_, _ = r.S.Repo.GetHealthy(context.Background())
+				}
+			}()
+		}
+		next := make([]domain.EndpointStatus, c.N)
+		for i := range next {
+			x = x*1664525 + 1013904223
+			switch {
+			case round%2 == 0:
+				next[i] = domain.StatusHealthy
+			case (x>>9)%4 == 0:
+				next[i] = domain.StatusHealthy
+			default:
+				next[i] = gen.Statuses[int(x>>16)%len(gen.Statuses)]
+			}
+		}
+		var ww sync.WaitGroup
+		go2 := make(chan struct{})
+		for i := 0; i < c.N; i++ {
+			ww.Add(1)
+			go func(i int) {
+				defer ww.Done()
+				<-go2
+				_ = r.S.SetStatus(urls[i], next[i])
+			}(i)
+		}
+		time.Sleep(time.Duration(x%800) * time.Microsecond)
+		close(go2)
+		ww.Wait()
+		halt.Store(true)
+		sw.Wait()
+		copy(final, next)
+		aftermath(fmt.Sprintf("burst round %d", round))
+	}
+	rec.Class("concurrent/burst-rounds")
 	if len(vs) > 0 {
 		// nobody in this sub-check asks for health checks: one that happened anyway (the production
 		// scheduler) wrote a status the writers' logs do not contain
